@@ -143,14 +143,18 @@ class QCircuit:
 
     def copy(self, vanilla=False) -> "QCircuit":
         """Create a copy of the quantum circuit; if vanilla is True, reset all mapping info"""
-        self.__native = None
         if vanilla:
             circ = QCircuit(self.num_qubits)
             circ.gates = copy.deepcopy(self.gates)
 
             return circ
 
-        return copy.deepcopy(self)
+        # the native object is not copied (and the circuit copied is left as it is)
+        native, self.__native = self.__native, None
+        try:
+            return copy.deepcopy(self)
+        finally:
+            self.__native = native
 
     def repeat(self, n: int) -> "QCircuit":
         """Return a copy of the QCircuit repeated n times"""
